@@ -451,6 +451,11 @@ type e1site struct {
 	chain  string // "" for the function's own sites; call chain for sites of inlined helpers
 }
 
+type subCond struct {
+	f *e1func
+	e ast.Expr
+}
+
 type e1func struct {
 	eng      *e1
 	fi       *FuncInfo
@@ -480,6 +485,7 @@ type e1func struct {
 	eligCache map[any]map[*ast.CallExpr]bool
 	loopAll   map[*ast.RangeStmt][]*Term // all(xs, F) facts established when the range loop is exhausted
 	brDepth   int
+	subCond   map[types.Object]subCond
 	forAll    map[*ast.ForStmt][]*Term // the same for canonical index loops
 }
 
@@ -1054,6 +1060,14 @@ func (f *e1func) flowBlock(b *cfg.Block, cur []*fstate, sites *[]*e1site) [][]*f
 				} else if rs.Key != nil {
 					fs = append(fs, fact("inloop", f.term(rs.Key), xt))
 				}
+				if rs.Key != nil {
+					if id, ok := rs.Key.(*ast.Ident); ok && id.Name != "_" {
+						if _, isMap := f.info.TypeOf(rs.X).Underlying().(*types.Map); !isMap {
+							// xs[i] is the current element as well
+							fs = append(fs, fact("inloop", mk("index", "", xt, f.term(rs.Key)), xt))
+						}
+					}
+				}
 				if n := cur[i].with(fs...); n != nil {
 					cur[i] = n
 				}
@@ -1137,6 +1151,10 @@ func (f *e1func) flowBlock(b *cfg.Block, cur []*fstate, sites *[]*e1site) [][]*f
 					}
 					if qs := f.forAll[fs]; len(qs) > 0 {
 						for i, st := range outs[1] {
+							qs := qs
+							for _, q := range f.forAll[fs] {
+								qs = append(qs[:len(qs):len(qs)], f.expandDefs(st, q)...)
+							}
 							if ns := st.with(qs...); ns != nil {
 								outs[1][i] = &fstate{facts: ns.facts, from: st.from, via: st.via}
 							}
@@ -1209,6 +1227,10 @@ func (f *e1func) flowBlock(b *cfg.Block, cur []*fstate, sites *[]*e1site) [][]*f
 			if qs := f.loopAll[rs]; len(qs) > 0 {
 				var done []*fstate
 				for _, st := range cur {
+					qs := qs
+					for _, q := range f.loopAll[rs] {
+						qs = append(qs[:len(qs):len(qs)], f.expandDefs(st, q)...)
+					}
 					if ns := st.with(qs...); ns != nil {
 						done = append(done, &fstate{facts: ns.facts, from: st, via: fmt.Sprintf("L%d:range done", f.eng.c.P.Fset.Position(rs.Pos()).Line)})
 					} else {
@@ -2096,6 +2118,13 @@ func (f *e1func) branchExpr(st *fstate, cond ast.Expr, val bool) []*fstate {
 	// a boolean temporary (assigned once, pure definition): the condition is its definition
 	if id, ok := cond.(*ast.Ident); ok {
 		if o := f.info.Uses[id]; o != nil {
+			// a boolean parameter of an interpreted helper: the condition is the caller's argument expression
+			if sc, ok := f.subCond[o]; ok && f.brDepth < 4 {
+				f.brDepth++
+				out := sc.f.branchExpr(st, sc.e, val)
+				f.brDepth--
+				return out
+			}
 			if def, ok := f.tb.inl[o]; ok && f.brDepth < 4 {
 				if _, isSub := f.tb.sub[o]; !isSub {
 					f.brDepth++
@@ -2152,7 +2181,12 @@ func (f *e1func) branchExpr(st *fstate, cond ast.Expr, val bool) []*fstate {
 		for i := 0; i < n; i++ {
 			fs = append(fs, f.expandDefs(st, fs[i])...)
 		}
-		fs = append(fs, deriveFacts(st, fs)...)
+		derived := deriveFacts(st, fs)
+		fs = append(fs, derived...)
+		// derived facts are also stated through the definitions of the variables they mention
+		for _, d := range derived {
+			fs = append(fs, f.expandDefs(st, d)...)
+		}
 		if ns := st.with(fs...); ns != nil {
 			out = append(out, ns)
 		}
